@@ -164,7 +164,8 @@ class YamlDocument(HierDictDocument):
 
             ctx.in_document = yaml.load(s, **self.in_kwargs)
 
-        except ParserError as e:
+        except yaml.YAMLError as e:
+            # ParserError, ScannerError, ReaderError, ConstructorError, ...
             raise Fault('Client.YamlDecodeError', repr(e))
 
     def create_out_string(self, ctx, out_string_encoding='utf8'):
